@@ -82,7 +82,10 @@ def run(tier, seed, replay=None):
     srcs = [t for t in fx if len(t) < (20000 if tier == "quick" else 10 ** 7)]
     srcs += synth.generate(rng, 400 if tier == "quick" else 8000)
     srcs += core.gen_perturbed(seed, 300 if tier == "quick" else 8000, 1500, "d", fx)
-    srcs += ["/ 2:\n  // 2\n  222\n", "- a\n  - b\n    c\n", "#{\n  [\n    - a\n      b\n  ]\n}\n"]
+    srcs += ["/ 2:\n  // 2\n  222\n", "- a\n  - b\n    c\n", "#{\n  [\n    - a\n      b\n  ]\n}\n",
+             # triggers of seeded changes (chains that break, multi-line math arguments)
+             "#let total = (\n  first // the first operand\n  + second\n  + third\n)\n", "#{ let y = value.pos() // c\n .map(it => it * 2)\n .sum() }\n",
+             "$\n  mat(\n    1, 2;\n    3, 4\n  )\n$\n"]
     if replay and isinstance(replay.get("input"), dict) and "source" in replay["input"]:
         srcs.insert(0, replay["input"]["source"])
     t0 = time.time()
